@@ -132,6 +132,8 @@ package bgp
 // path attributes
 //@ props C05 C04
 
+//@ func validatePathAttributeFlags
+//@   inline
 //@ func getErrorHandlingFromPathAttribute
 //@   tag C05 C06 C14
 // from C06 "attribute discard, treat-as-withdraw ... the strongest reaction any of its errors calls for" (and no
@@ -1155,15 +1157,3 @@ func verifRoundTripNextHop(a *PathAttributeNextHop) bool {
 //@   at-call NewIPv6AddressSpecificExtended( requires localAdmin <= 65535
 //@   at-call NewFourOctetAsSpecificExtended( requires localAdmin <= 65535
 
-// from C06 "no route is ever installed ... carrying an attribute that arrived malformed": the attribute flags - RFC 4271
-// 4.3: the Partial bit of a well-known attribute and of an optional non-transitive attribute is 0, the Transitive bit of
-// a well-known attribute is 1 - are refused when they are not what the RFC allows
-//@ props C06
-//@ func validatePathAttributeFlags
-//@   tag C05 C04 C06
-//@   pure
-//@   modifies nothing
-//@   claims post
-//@   ensures flags&BGP_ATTR_FLAG_OPTIONAL != 0 && flags&BGP_ATTR_FLAG_TRANSITIVE == 0 && flags&BGP_ATTR_FLAG_PARTIAL != 0 ==> result != ""
-//@   ensures flags&BGP_ATTR_FLAG_OPTIONAL == 0 && flags&BGP_ATTR_FLAG_PARTIAL != 0 ==> result != ""
-//@   ensures flags&BGP_ATTR_FLAG_OPTIONAL == 0 && flags&BGP_ATTR_FLAG_TRANSITIVE == 0 ==> result != ""
